@@ -61,7 +61,9 @@ def gen_call(rng, labs):
     lam = rng.choice([F(1), F(1), F(2), F(1, 2), F(7, 4)] + ([F(0)] if rng.random() < 0.12 else []))
     jb = None if b is None else [None if x is None else [F(x).numerator, F(x).denominator] for x in b]
     # unary slack needs one ancilla per unit of range: keep those cases small so the model stays cheap to evaluate
-    log = True if hi - lo > 7 else rng.random() < 0.5
+    # ... on spins it is dearer still (every squared boolean-form term is expanded again by pubo_to_puso): unary slack only
+    # on short ranges and low degree
+    log = True if (hi - lo > 4 or max((len(k) for k, _ in P), default=0) >= 3) else rng.random() < 0.5
     return {"rel": rng.choice(REL), "P": G.jraw(P), "lam": [lam.numerator, lam.denominator], "log": log, "bounds": jb}
 
 
